@@ -52,22 +52,27 @@ def case_strategy(draw, tier):
             k += 1
             t["x"][i] = ((t["x"][i] * 8 + 512 + k) % 1024 - 512) / 8.0
         seen.add((t["x"][i], t["y"][i], t["z"][i]))
-    if draw(st.integers(0, 4)) == 0:
-        # a finely traced neuron: every node within half a unit of its parent (steps of 1/8), still all points distinct
+    kind = draw(st.sampled_from(["rigid", "rigid", "renumber", "scale"]))
+    far = kind == "rigid" and draw(st.integers(0, 3)) == 0
+    fine = 32.0 if (far and draw(st.booleans())) else 8.0
+    if draw(st.integers(0, 4)) == 0 or fine == 32.0:
+        # a finely traced neuron: every node within half a unit of its parent (steps of 1/8, or of 1/32 within an eighth of
+        # a unit for neurons that will be moved far away), still all points distinct
         order = models.topo_order(t["parents"])
         seen = set()
         for i in order:
             p = t["parents"][i]
             base = (0.0, 0.0, 0.0) if p == -1 else (t["x"][p], t["y"][p], t["z"][p])
             while True:
-                stp = [draw(st.integers(-4, 4)) / 8.0 for _ in range(3)]
+                stp = [draw(st.integers(-4, 4)) / fine for _ in range(3)]
                 c = (base[0] + stp[0], base[1] + stp[1], base[2] + stp[2])
                 if c not in seen:
                     break
             seen.add(c)
             t["x"][i], t["y"][i], t["z"][i] = c
         t["compact"] = True
-    kind = draw(st.sampled_from(["rigid", "rigid", "renumber", "scale"]))
+        if fine == 32.0:
+            t["fine32"] = True  # steps of 1/32 need five decimals: such neurons do not survive an SWC file exactly
     case = {"tree": t, "kind": kind, "steps": draw(st.integers(1, 15)),
             "fracs": draw(st.lists(st.floats(min_value=0.05, max_value=1.1, allow_nan=False), min_size=2, max_size=5))}
     n = len(t["parents"])
@@ -78,7 +83,7 @@ def case_strategy(draw, tier):
         case["axis"] = ax
         case["theta"] = draw(st.floats(min_value=-6.28, max_value=6.28, allow_nan=False))
         case["offset"] = [draw(st.integers(-800, 800)) / 8.0 for _ in range(3)]
-        if draw(st.integers(0, 3)) == 0:
+        if far:
             # a pure translation far away (stack coordinates): multiples of 4096, exact for lattice points in float32
             case["theta"] = 0.0
             case["offset"] = [draw(st.integers(-8, 8)) * 4096.0 for _ in range(3)]
@@ -176,6 +181,8 @@ def run_case(case, ctx):
         moved = any(case["offset"])
     if t.get("compact"):
         ctx.cls("finely-traced")
+    if t.get("fine32") and case.get("far"):
+        ctx.cls("traced-in-steps-of-1/32-and-moved-far-away")
     ctx.nontrivial(n >= 5 and nfurc >= 1 and moved)
 
     extents_first = case["steps"] % 3 == 0
@@ -272,7 +279,7 @@ def run_case(case, ctx):
         else:
             ctx.ambiguous("sholl:grid-length-differs-by-rounding")
             ctx.check(abs(len(ga) - len(gb)) <= 1, f"{kind}/sholl-by-steps/grid-length", f"{len(ga)} vs {len(gb)}")
-        if kind == "rigid" and case["theta"] == 0.0:
+        if kind == "rigid" and case["theta"] == 0.0 and not t.get("fine32"):
             # a pure translation of a lattice neuron survives the four decimals of an SWC file exactly: the profile of the
             # neuron given as a file name is that of the tree object, wherever the neuron lies
             import os
@@ -437,7 +444,7 @@ SUBCHECKS = [
     Sub("invariance", case_strategy, run_case, quick=3000, thorough=40000, shards_quick=8,
         required={"kind:rigid": 150, "kind:renumber": 80, "kind:scale": 80, "furcation": 300, "translated-far-away": 60,
                   "finely-traced": 100, "scaled-by-the-library-after-measuring": 40, "extents-asked-first": 300,
-                  "sholl-from-a-file-name": 60}),
+                  "sholl-from-a-file-name": 60, "traced-in-steps-of-1/32-and-moved-far-away": 100}),
     Sub("volume_mc", volume_mc_strategy, run_volume_mc, quick=40, thorough=640, shards_quick=8,
         required={"siblings-reordered": 8, "daughter-cones-overlap>1%": 8, "family:axis-parallel": 4, "family:oblique": 8}),
 ]
